@@ -117,6 +117,16 @@ Definition fo_kids_eqb (l1 l2 : list rnode) : bool :=
      | _, _ => false
      end) l1 l2.
 
+(* reduceAtomic 587-592: `for child.T == NtAtomic { atomic = child; child = atomic.Children[0] }` *)
+Fixpoint fo_innermost_atomic (x : rnode) : rnode :=
+  match x with
+  | RN _ _ _ _ _ _ _ kids =>
+      match kids with
+      | child :: _ => if n_t child =? T_Atomic then fo_innermost_atomic child else x
+      | [] => x
+      end
+  end.
+
 Section FinalOpt.
 Variable cat_in : Z -> Z -> bool.
 Variable is_word_char : Z -> bool.
@@ -650,37 +660,32 @@ with fo_reduce (fuel : nat) (g : Z) (strict : Z) (lite : bool) (mode : Z) (ptype
       end
     else if t =? T_Atomic then
       (* reduceAtomic (586-715) *)
-      (fix strip (fu : nat) (atomic : rnode) : res rnode :=
-         match fu with
-         | O => Fuel
-         | S fu' =>
-           match n_kids atomic with
-           | [] => Crash 22
-           | child :: crest =>
-               let ct := n_t child in
-               let dflt (c : rnode) : res rnode :=
-                 do c' <- fo_ee f g strict lite true c ; Ok (set_kids atomic (c' :: crest)) in
-               if ct =? T_Atomic then strip fu' child
-               else if (ct =? T_Empty) || (ct =? T_Nothing) then Ok child
-               else if is_atomicloop_family ct then Ok child
-               else if fo_is_charloop ct || fo_is_charlazy ct then Ok (make_loop_atomic child)
-               else if (ct =? T_Alternate) && negb (useRTL o1) then
-                 if fo_gate g 8 then dflt child
-                 else
-                   match n_kids child with
-                   | [] => Crash 46
-                   | b0 :: _ =>
-                       if n_t b0 =? T_Empty then Ok (mk_node T_Empty (n_o child))          (* 623 *)
-                       else
-                         do keyed <- fo_map_res fo_key (fo_trim (n_kids child)) ;
-                         let (brs, reordered) := fo_reorder (S (length keyed)) keyed in
-                         let child1 := set_kids child brs in
-                         do child2 <- (if reordered then fo_reduce f g strict lite 0 T_Atomic child1 else Ok child1) ;
-                         dflt child2
-                   end
-               else dflt child
-           end
-         end) (S f) x1
+      let atomic := fo_innermost_atomic x1 in
+      match n_kids atomic with
+      | [] => Crash 22
+      | child :: crest =>
+          let ct := n_t child in
+          let dflt (c : rnode) : res rnode :=
+            do c' <- fo_ee f g strict lite true c ; Ok (set_kids atomic (c' :: crest)) in
+          if (ct =? T_Empty) || (ct =? T_Nothing) then Ok child
+          else if is_atomicloop_family ct then Ok child
+          else if fo_is_charloop ct || fo_is_charlazy ct then Ok (make_loop_atomic child)
+          else if (ct =? T_Alternate) && negb (useRTL o1) then
+            if fo_gate g 8 then dflt child
+            else
+              match n_kids child with
+              | [] => Crash 46
+              | b0 :: _ =>
+                  if n_t b0 =? T_Empty then Ok (mk_node T_Empty (n_o child))          (* 623 *)
+                  else
+                    do keyed <- fo_map_res fo_key (fo_trim (n_kids child)) ;
+                    let (brs, reordered) := fo_reorder (S (length keyed)) keyed in
+                    let child1 := set_kids child brs in
+                    do child2 <- (if reordered then fo_reduce f g strict lite 0 T_Atomic child1 else Ok child1) ;
+                    dflt child2
+              end
+          else dflt child
+      end
     else if (t =? T_PosLook) || (t =? T_NegLook) then
       (* reduceLookaround (516-540) *)
       do x2 <- fo_ee f g strict lite false x1 ;
